@@ -99,6 +99,14 @@ class _Idx:
     def __iter__(self):
         return iter(())
 
+    # the constructor first normalises numpy-style negative indices (indices < 0 -> indices + n): the abstract index array stands
+    # for the normalised one, the normalisation itself (element-wise integer arithmetic) is exercised by the bounded tier
+    def __lt__(self, other):
+        return 'negative-entries-of(%s)' % self.name
+
+    def __add__(self, other):
+        return self
+
 
 class _Vals:
     def __init__(self, vec):
@@ -142,8 +150,13 @@ def rls_obligations():
                     return c
 
                 @staticmethod
-                def asarray(x):
+                def asarray(x, dtype=None):
                     return _Vals(x) if isinstance(x, Vec) else x
+
+                @staticmethod
+                def where(cond, a, b):
+                    assert isinstance(a, _Idx) and isinstance(b, _Idx) and a is b
+                    return b
 
                 @staticmethod
                 def argsort(idx, kind=None):
